@@ -10,7 +10,7 @@ TEXT = {
                  "completing that lowers the number; (T3) no event raises the number of missing pieces, which is 0 exactly when all are owned. "
                  "Not proved: that the real tasks take these steps (fairness, sockets, timers) - observed by end-to-end runs of the real Session.",
         "note": KERNEL + "the liveness half is a possibility-of-progress theorem about the manager model plus monotonicity, not a fairness proof of the tokio "
-                "runtime; the handler-level block exchange is covered by C10/C01/C06 separately; e2e runs: 14 per quick check, 700 in the thorough tier.",
+                "runtime; the handler-level block exchange is covered by C10/C01/C06 separately; e2e runs: 14 per quick check, 700 in the thorough tier; the manager model under T2/T3 is tied by manager event histories (25 per e2e run).",
         "technique": "Lean 4 proof (composition of C01/C03/C12/C13 models: verified-store refinement; progress measure over reachable manager states) + end-to-end differential runs of the real session",
     },
     "C19": {
@@ -21,7 +21,9 @@ TEXT = {
                  "the manager never waits for a retrying tracker (invariant by induction over reachable states), no deadlock before the peers are "
                  "contacted, every step decreases a measure, so every maximal execution has at most 9k+6 steps and ends with the peers contacted (T4); "
                  "for the code as it was (join after every command) the model exhibits the blocked manager at k = 1 and a deadlock at "
-                 "k = CHANNEL_SIZE + 2 (decide). Totality of reply parsing is observed on the real parser (no panic on any generated body).",
+                 "k = CHANNEL_SIZE + 2 (decide). One answered announce (HTTP status, body bytes) hands the manager exactly that reply or counts as a "
+                 "failed announce (exchange theorems), tied by real loopback exchanges of TrackerClient::run. Totality of reply parsing is observed on "
+                 "the real parser (no panic on any generated body).",
         "note": KERNEL + "PARTIAL for part 2: the retry model is hand-abstracted from tokio's spawn/mpsc/JoinHandle semantics and is tied to the real "
                 "Session::run only by end-to-end runs against a scripted loopback tracker (one per quick run, five in the thorough tier incl. 67 failures); "
                 "real-time scheduling, reqwest and the OS are not modelled.",
@@ -114,7 +116,10 @@ TEXT = {
                  "limit: regular unchoked <= MAX_UNCHOKED and optimistic <= MAX_OPTIMISTIC in every reachable state (T1, invariant by induction over the "
                  "history; constants <= 10 / <= 1 by decide); after every rotation slot holders are interested, no interested peer with a strictly better rate "
                  "than a slot holder stays choked, uninterested peers are choked, for any tie order (T2); the broadcast am_choked_map has an entry exactly for "
-                 "the peers whose flag changed, with the new value (T3). Tied to the real Session by command histories compared after every operation.",
+                 "the peers whose flag changed, with the new value (T3); the timer handler (round counter, wait-until-every-peer-reported-rates gate, rate "
+                 "selection by seeder state, optimistic candidate) is either no change or an admissible rotation, so T1/T2 hold at every tick "
+                 "(T1_tick_keeps_slot_bounds, T2_tick_postcondition). Tied to the real Session by command histories incl. real timer ticks, compared "
+                 "after every operation.",
         "note": KERNEL + "modelled: HashMap iteration order = arbitrary permutation (the rotation theorem quantifies over every rate-sorted order); "
                 "assumed: broadcast delivery to every connection task (channel capacity), see DESIGN.md.",
         "technique": "Lean 4 proof (invariant by induction over operation histories + loop lemmas) + differential correspondence on command histories",
